@@ -6,6 +6,7 @@ package rules
 
 import (
 	"fmt"
+	"go/constant"
 	"go/token"
 	"go/types"
 	"sort"
@@ -588,6 +589,7 @@ func runAliasGuard(m *model.Model, s *ob.Set) {
 	const R = "ALIASGUARD"
 	runAliasSkip(m, s)
 	aliasFn := m.Lookup("alias")
+	aliasLenBlind(m, s, aliasFn)
 	for _, fn := range m.Funcs {
 		if !m.InDecimalPkg(fn) || inKernelLayer(m, fn) || len(fn.Params) == 0 || !m.IsWordSlice(fn.Params[0].Type()) {
 			continue
@@ -1866,4 +1868,83 @@ func sameThroughPhi(stored, a ssa.Value) bool {
 		return true
 	}
 	return false
+}
+
+// aliasLenBlind: the predicate the guards rely on answers for the storage, not for the current length.
+// A mantissa of length 0 still owns its array up to cap, and make() hands that array out again; so an
+// edge of alias() taken when len(parameter) == 0 must not lead straight to the answer false.
+func aliasLenBlind(m *model.Model, s *ob.Set, fn *ssa.Function) {
+	const R = "ALIASGUARD"
+	if fn == nil || len(fn.Blocks) == 0 {
+		return
+	}
+	lenOfParam := func(v ssa.Value) bool {
+		c, ok := stripConv(v).(*ssa.Call)
+		if !ok || model.BuiltinName(&c.Call) != "len" || len(c.Call.Args) != 1 {
+			return false
+		}
+		_, isP := stripConvAny(c.Call.Args[0]).(*ssa.Parameter)
+		return isP
+	}
+	bad := ""
+	for _, b := range fn.Blocks {
+		if len(b.Instrs) == 0 {
+			continue
+		}
+		ifi, ok := b.Instrs[len(b.Instrs)-1].(*ssa.If)
+		if !ok {
+			continue
+		}
+		bo, ok := ifi.Cond.(*ssa.BinOp)
+		if !ok {
+			continue
+		}
+		x, y, op := bo.X, bo.Y, bo.Op
+		if lenOfParam(y) {
+			x, y, op = y, x, mirrorOpTok[op]
+		}
+		k, isK := model.ConstInt(y)
+		if !lenOfParam(x) || !isK {
+			continue
+		}
+		// the successor taken when len == 0
+		zeroEdge := -1
+		switch {
+		case (op == token.GTR && k == 0) || (op == token.NEQ && k == 0) || (op == token.GEQ && k == 1):
+			zeroEdge = 1
+		case (op == token.EQL && k == 0) || (op == token.LEQ && k == 0) || (op == token.LSS && k == 1):
+			zeroEdge = 0
+		}
+		if zeroEdge < 0 || zeroEdge >= len(b.Succs) {
+			continue
+		}
+		t := b.Succs[zeroEdge]
+		// the target returns a constant false, or a φ whose edge from b is the constant false
+		if len(t.Instrs) == 0 {
+			continue
+		}
+		ret, ok := t.Instrs[len(t.Instrs)-1].(*ssa.Return)
+		if !ok || len(ret.Results) != 1 {
+			continue
+		}
+		isFalse := func(v ssa.Value) bool {
+			c, ok := v.(*ssa.Const)
+			return ok && c.Value != nil && c.Value.Kind() == constant.Bool && !constant.BoolVal(c.Value)
+		}
+		switch r := ret.Results[0].(type) {
+		case *ssa.Const:
+			if isFalse(r) {
+				bad = m.InstrPos(ifi)
+			}
+		case *ssa.Phi:
+			if r.Block() == t {
+				for i, p := range t.Preds {
+					if p == b && i < len(r.Edges) && isFalse(r.Edges[i]) {
+						bad = m.InstrPos(ifi)
+					}
+				}
+			}
+		}
+	}
+	s.Check(bad == "", R, "alias/length-blind", m.Pos(fn.Pos()), "no test of a parameter's length decides the answer false", bad+": alias() answers false as soon as one slice has length 0; a mantissa of length 0 (a zero, or one re-sliced to [:0]) still owns its array up to cap and make() hands it out again, so the guards that rely on alias() let an operand be overwritten")
 }
